@@ -1,7 +1,6 @@
 import AlgoVerif.Proofs.C06BinarySim
 import AlgoVerif.Proofs.C06Patricia
-import AlgoVerif.Proofs.C06PStr
-import AlgoVerif.Proofs.C06PDel
+import AlgoVerif.Proofs.C06PDel3
 /-!
 # C06 — tries are ordered string maps with prefix and pattern queries
 
@@ -97,46 +96,45 @@ theorem C06_patricia_search_total {V : Type} (t : Patricia V) (hc : Patricia.Clo
 
 example : Patricia.Closed (Patricia.new : Patricia Int) := Patricia.Closed.new
 
-/-- **C06, Patricia trie, partial.**  For every history of Put, Get, DeleteAll and **all** queries (Size, Min, Max,
-Floor, Ceiling, Select, Rank, Range, RangeSize, All, WithPrefix, LongestPrefixOf, Match) whose stored keys are
-non-empty and shorter than `lenPos = 2^30` bits (`PatriciaHistory`, see `Model/C06Run.lean`; WithPrefix arguments
-that short too), over any value type — keys containing or ending in 0x00 included — the Patricia trie never
-panics, never runs out of fuel, and every operation returns exactly what the sorted map returns.
+/-- **C06, Patricia trie: the full statement.**  For every history of all 19 operations — Put, Get, Delete, DeleteMin,
+DeleteMax, DeleteAll and every query (Size, Min, Max, Floor, Ceiling, Select, Rank, Range, RangeSize, All, WithPrefix,
+LongestPrefixOf, Match) — whose stored keys are non-empty and shorter than `lenPos = 2^30` bits (`PatriciaHistory`, see
+`Model/C06Run.lean`; WithPrefix arguments that short too), over any value type — keys containing or ending in 0x00
+included — the Patricia trie never panics, never runs out of fuel, and every operation returns exactly what the sorted
+map returns; in particular deleting a key removes that key only, also when it is a prefix or an extension of held keys
+(in the Patricia trie: when its node is the root, an inner node or the referrer of its own thread), and deleting an
+absent key changes nothing.
 
-Full statement (not proved; the missing operations are tied to the code by the per-run correspondence and
-oracle checks only):
-```
-theorem C06_patricia (ops : List (Op V)) (h : every stored key is non-empty and shorter than 2^30 bits) :
-    Patricia.run Patricia.new ops = (Spec.Map.run [] ops).map Outcome.ok
-```
-Missing: Delete / DeleteMin / DeleteMax.  Proved towards it (`Proofs/C06PDelT.lean`, `Proofs/C06PDel.lean`): the
-two search loops of `_delete` end at the nodes `findEnd` / `parentEnd` describe, removing the leaf and contracting
-its parent keeps the crit-bit invariant and removes exactly that entry, and the store after the first link update
-of `remove` represents the contracted tree (`contract_rep`).  Not done: the second half of `remove` (the removed
-node's Patricia node being replaced by the contracted one: link of its parent, bit position and links copied,
-root moved) and the re-establishment of the remaining invariants. -/
-theorem C06_patricia_partial {V : Type} (ops : List (Op V)) (h : PatriciaHistory ops = true) :
+Proof: the store (array of nodes with cyclic index links) unfolds from `root.left` into a crit-bit tree (`Rep`,
+`Proofs/C06PRep.lean`); `_put` is insertion at the first differing bit (`Proofs/C06PPut.lean`), `remove` is the
+contraction of the removed leaf's parent followed by the replacement of the removed leaf's node by the contracted
+node (`Proofs/C06PDel*.lean`), traversals are folds over the in-order leaves. -/
+theorem C06_patricia {V : Type} (ops : List (Op V)) (h : PatriciaHistory ops = true) :
     Patricia.run (Patricia.new : Patricia V) ops = (Spec.Map.run ([] : Spec.Map V) ops).map Outcome.ok :=
   Patricia.run_sim Patricia.PInv.new (by simp) ops h
 
 /-- non-vacuity: keys that are prefixes / extensions of each other, keys that differ by trailing 0x00 bytes only
-(D9e: `a`, `a\0`, `a\0\0`), keys differing in the last bit of a byte (`b`, `c`), an update, and all kinds of
-queries. -/
+(D9e: `a`, `a\0`, `a\0\0`), keys differing in the last bit of a byte (`b`, `c`), an update, all kinds of queries, and
+deletions of the root's key (`ab`, inserted first), of keys that are prefixes / extensions of held keys, of an absent key,
+DeleteMin and DeleteMax. -/
 example : PatriciaHistory
     ([.put [97, 98] 1, .put [97] 2, .put [97, 0] 3, .put [97, 0, 0] 4, .put [98, 120] 6, .put [99, 121] 7, .put [97] 5,
       .get [97, 0], .rank [97, 0, 0], .floor [97, 1], .ceiling [97, 0], .select 2, .range [97] [98], .min, .max, .all, .size,
       .withPrefix [97], .withPrefix [98], .withPrefix [99], .longestPrefixOf [97, 0, 0, 7], .match [97, 42],
-      .match [42, 42, 42]] : List (Op Int)) = true := by
+      .match [42, 42, 42], .delete [97, 98], .all, .delete [97, 0], .withPrefix [97], .delete [100], .deleteMin, .all,
+      .deleteMax, .all, .delete [97, 0, 0], .delete [98, 120], .size, .all] : List (Op Int)) = true := by
   decide
 
 example : Patricia.run (Patricia.new : Patricia Int)
     [.put [97, 98] 1, .put [97] 2, .put [97, 0] 3, .put [97, 0, 0] 4, .put [98, 120] 6, .put [99, 121] 7, .put [97] 5,
       .get [97, 0], .rank [97, 0, 0], .floor [97, 1], .ceiling [97, 0], .select 2, .range [97] [98], .min, .max, .all, .size,
       .withPrefix [97], .withPrefix [98], .withPrefix [99], .longestPrefixOf [97, 0, 0, 7], .match [97, 42],
-      .match [42, 42, 42]]
+      .match [42, 42, 42], .delete [97, 98], .all, .delete [97, 0], .withPrefix [97], .delete [100], .deleteMin, .all,
+      .deleteMax, .all, .delete [97, 0, 0], .delete [98, 120], .size, .all]
     = (Spec.Map.run ([] : Spec.Map Int)
     [.put [97, 98] 1, .put [97] 2, .put [97, 0] 3, .put [97, 0, 0] 4, .put [98, 120] 6, .put [99, 121] 7, .put [97] 5,
       .get [97, 0], .rank [97, 0, 0], .floor [97, 1], .ceiling [97, 0], .select 2, .range [97] [98], .min, .max, .all, .size,
       .withPrefix [97], .withPrefix [98], .withPrefix [99], .longestPrefixOf [97, 0, 0, 7], .match [97, 42],
-      .match [42, 42, 42]]).map Outcome.ok := by
+      .match [42, 42, 42], .delete [97, 98], .all, .delete [97, 0], .withPrefix [97], .delete [100], .deleteMin, .all,
+      .deleteMax, .all, .delete [97, 0, 0], .delete [98, 120], .size, .all]).map Outcome.ok := by
   decide
